@@ -2042,6 +2042,10 @@ impl Tree {
                 '(' => {
                     // Start subtree
                     match parent_stack.last() {
+                        // Only the first subtree can be opened without a parent
+                        None if !tree.nodes.is_empty() => {
+                            return Err(NewickParseError::NoSubtreeParent)
+                        }
                         None => parent_stack.push(tree.add(Node::new())),
                         Some(parent) => {
                             parent_stack.push(tree.add_child(Node::new(), *parent, None)?)
